@@ -277,6 +277,21 @@ func familyVerify(t *testing.T) {
 				vsleep(70 * time.Second)
 				r.verify(tk, false)
 			}
+			if sc == 3 { // the revocation list filled exactly to its capacity (500), one of its tokens revoked a second time: nothing is forgotten
+				toks := make([]*vtok, 0, 500)
+				for i := 0; i < 500; i++ {
+					tk := r.mint("valid", 3*time.Hour, "")
+					toks = append(toks, tk)
+					r.revoke(tk)
+				}
+				r.revoke(toks[250])
+				r.revoke(toks[499])
+				r.verify(toks[0], false)
+				r.verify(toks[1], false)
+				r.verify(toks[250], false)
+				r.verify(toks[499], false)
+				T.stat("verify.full-revocation-list")
+			}
 			if sc%10 == 6 && !lowLimit { // sibling instances of the same process: each decides on its own state and its own configuration
 				same, other := r.sibling("cid"), r.sibling("another-app")
 				tk := r.mint("valid", 2*time.Hour, "")
